@@ -124,14 +124,17 @@ def _work(unit):
     cs = ledger.contracts_of(universe)
     reset_clock()
     out = {"transitions": 0, "violations": [], "nontrivial": 0, "outcomes": set()}
-    first_sb = chunk[0][0] if chunk else None
+    b0, _, _ = ledger.initial(universe, fee, quotes, deposit, rate)
+    first_sb = snap(b0)      # the preview state: the untouched initial account of this source
     for sb, ref, hist in chunk:
         for measure, targets in ((("weight", W_TARGETS), ("nr-contracts", N_TARGETS)) if len(cs) == 2 else
                                  (("weight", W_TARGETS3), ("nr-contracts", N_TARGETS3))):
             for alloc in targets:
                 msgs, traded = check_rebalance(sb, ref, cs, fee, measure, alloc)
                 out["transitions"] += 1
-                if not msgs and sb is not first_sb and alloc in targets[:3]:
+                previewed = False
+                if not msgs and hist and alloc in targets[:3]:
+                    previewed = True
                     # preview on a different account state, then execute here
                     msgs, _ = check_rebalance(sb, ref, cs, fee, measure, alloc, second=False, preview_sb=first_sb)
                     out["transitions"] += 1
@@ -141,7 +144,8 @@ def _work(unit):
                     out["nontrivial"] += 1
                 if msgs:
                     case = {"universe": universe, "fee": list(fee), "quotes": [list(q) for q in quotes], "deposit": deposit, "rate": rate,
-                            "history": [list(o) for o in hist], "measure": measure, "alloc": list(alloc)}
+                            "history": [list(o) for o in hist], "measure": measure, "alloc": list(alloc),
+                            "preview": previewed and msgs[0].startswith("after a preview")}
                     out["violations"].append((case, "; ".join(msgs[:3]), (msgs[0].split(" ")[0], measure, universe)))
     return out
 
@@ -185,6 +189,10 @@ def replay(case, **kw):
     b, ref, cs = ledger.initial(universe, fee, quotes, case["deposit"], case.get("rate", 0.0))
     for op in case["history"]:
         ref, _ = ledger.apply_op(b, ref, cs, tuple(op), quotes, fee)
+    if case.get("preview"):
+        b0, _, _ = ledger.initial(universe, fee, quotes, case["deposit"], case.get("rate", 0.0))
+        msgs, _ = check_rebalance(snap(b), ref, cs, fee, case["measure"], tuple(case["alloc"]), second=False, preview_sb=snap(b0))
+        return ["after a preview (make_trades) of the same request on another account state: " + m for m in msgs]
     msgs, _ = check_rebalance(snap(b), ref, cs, fee, case["measure"], tuple(case["alloc"]))
     return msgs
 
